@@ -112,12 +112,14 @@ def project_tasks(prop, tier, base):
         for k in range(2 if tier == "quick" else 8):
             tasks.append({"tid": "t%d" % k, "kind": "table", "seed": core.run_seed(base, 900000 + k)})
         if tier == "quick":
-            # a seeded sample of the 2187-row presence-pattern table of `sync` (the thorough tier enumerates it)
-            for k in range(8):
+            # a seeded sample of the 12288-row presence-pattern table of `sync` (the thorough tier enumerates it)
+            for k in range(12):
                 tasks.append({"tid": "q%d" % k, "kind": "patterns", "seed": core.run_seed(base, 910000 + k), "sample": 40})
         else:
-            n = 3 ** 6 * 3
-            step = 137
+            from dtsim import gen_project as _gp
+
+            n = _gp.N_PATTERNS
+            step = 192
             for k, lo in enumerate(range(0, n, step)):
                 tasks.append({"tid": "q%d" % k, "kind": "patterns", "seed": core.run_seed(base, 910000), "lo": lo, "hi": min(n, lo + step)})
     for k in range(n_hist):
@@ -294,7 +296,7 @@ def project_coverage(prop, tier, stats, nruns, other, samples, pstats, wall, kno
         evaluations = sum(stats.get("faults_fired", {}).values()) + sum(stats.get("cli_cells", {}).values())
         rule = ("quick: for each of N generated base scenarios, EVERY I/O and conversion seam event of the operation under test x every fault kind applicable "
                 "to that event (one-shot and persistent IOERR with 4 prefix cuts at writes, KILL with 3 cuts, INTERRUPT, ALLOC, CONVERT) plus 24 step indices x {INTERRUPT, ALLOC, KILL}; "
-                "plus seeded random histories (<=7 ops) with faults attached to operations, plus the invocation table (13 rows, a seeded sample - thorough: all - of the 2187 presence "
+                "plus seeded random histories (<=7 ops) with faults attached to operations, plus the invocation table (13 rows, a seeded sample - thorough: all - of the 12288 presence "
                 "patterns of the sync options, spelling rows for gen). A fifth of the runs execute under python -O. An evaluation is one fault that FIRED "
                 "(or one invocation-table row); a cell is (op kind, target kind, write path create|append|replace, fault kind@seam, write in flight?) for files named "
                 "on the command line; distinct_nontrivial counts distinct cells in which the fault fired.")
@@ -574,7 +576,7 @@ def pattern_scenario(seed, lo, hi, sample=None):
     # the table is about argument combinations, not about conversion fidelity: a plain description without return entry
     proj.versions[0]["returns"] = None
     if sample:
-        pats = sorted(Chooser(seed).fork("patterns").sample("rows", list(range(3 ** 6 * 3)), sample))
+        pats = sorted(Chooser(seed).fork("patterns").sample("rows", list(range(gen_project.N_PATTERNS)), sample))
     else:
         pats = list(range(lo, hi))
     ops = gen_project.sync_pattern_rows(proj, pats)
